@@ -54,4 +54,34 @@ def collPullLoop (E : Option MCmp) (flt : Val → Val) : List CEvent → List CD
     | some e => ⟨o, n, !e o n⟩ :: collPullLoop E flt rest
     | none => ⟨o, n, true⟩ :: collPullLoop E flt rest
 
+/-- `CollectionChange.include`: `none` when the change is not forwarded (old and new both excluded);
+an UPDATE whose inclusion changes becomes an ADD (no old value) or a REMOVE (no new value).
+An absent value is never included. -/
+def includeAdjust (inc : Option (Val → Bool)) (ev : CEvent) : Option CEvent :=
+  match inc with
+  | none => some ev
+  | some f =>
+    let oldInc := match ev.old with | some v => f v | none => false
+    let newInc := match ev.new with | some v => f v | none => false
+    if oldInc == newInc then (if newInc then some ev else none)
+    else if newInc then some ⟨none, ev.new⟩
+    else some ⟨ev.old, none⟩
+
+/-- One event of `Collection.Pull` with an include filter: include first (on the stored values), then the
+read-mask filter, then the equivalence on the resulting change's old/new. `none`: dropped by include. -/
+def collPullStep (E : Option MCmp) (flt : Val → Val) (inc : Option (Val → Bool)) (ev : CEvent) : Option CDecision :=
+  match includeAdjust inc ev with
+  | none => none
+  | some c =>
+    let o := c.old.map flt
+    let n := c.new.map flt
+    match E with
+    | some e => some ⟨o, n, !e o n⟩
+    | none => some ⟨o, n, true⟩
+
+/-- The `for event := range emit` loop of `Collection.Pull` with `WithInclude`. -/
+def collPullLoopI (E : Option MCmp) (flt : Val → Val) (inc : Option (Val → Bool)) (events : List CEvent) :
+    List (Option CDecision) :=
+  events.map (collPullStep E flt inc)
+
 end ScVerif.C16
